@@ -180,7 +180,7 @@ def run(chk):
             cases.append({'kind': 'dir', 'uids': hist, 'ts': ts})
     seed = 0
     limits = [(16384, 16384), (128, 65536), (65536, 128), (0, 1024), (1024, 0), (24, 300), (300, 64)]
-    n = 14 if tier == 'quick' else 120
+    n = 14 if tier == 'quick' else 400
     for i in range(n):
         seed += 1
         k = rnd.choice([1, 2, 3])
